@@ -251,7 +251,7 @@ Section PillarGuards.
     destruct (revoke_window _ _ _ _) as [[[|] t]|] eqn:Ew; try discriminate. intros Hm; inv_ok Hm.
     apply negb_false_iff, bytes_eqb_eq in Eo.
     exists name, p, t. repeat split; auto; try lia.
-    eexists. cbn [a_store with_store l_pillars]. rewrite tget_tput, bytes_eqb_refl. repeat split.
+    eexists. cbn [a_store with_store l_pillars set_pillars]. rewrite tget_tput, bytes_eqb_refl. repeat split.
   Qed.
   Theorem pillar_never_twice e e' (a a' : cacct lstore) s s2 ds name :
     pillar_revoke_receive name_ok e a s = MOk a' ds -> pillar_revoke_validate name_ok s = VOk name ->
@@ -303,4 +303,52 @@ Theorem sentinel_window_spec reg now b t : 0 <= now - reg < two63 ->
 Proof.
   intros Hd H. rewrite sentinel_window_is_translated in H.
   apply (revoke_window_spec _ _ reg now b t); try assumption; vm_compute; reflexivity.
+Qed.
+
+(* ================================================================ pillar / sentinel methods: validated => no panic *)
+Section PillarNoPanic.
+  Variable name_ok : bytes -> bool.
+  Variable legacy_key : bytes -> bytes -> bytes -> option bytes.
+  Theorem register_no_panic e a s x : register_validate name_ok e s = VOk x -> register_receive name_ok e a s <> MPanic.
+  Proof.
+    intros H. unfold register_receive. rewrite H. destruct (check_and_register _ _ _ _ _ _); [|discriminate].
+    destruct (consume_qsr _ _ _); discriminate.
+  Qed.
+  Theorem legacy_no_panic e a s x : legacy_validate name_ok legacy_key e s = VOk x -> legacy_receive name_ok legacy_key e a s <> MPanic.
+  Proof.
+    intros H. unfold legacy_receive. rewrite H. destruct x as [p k]. destruct (tget _ _); [|discriminate].
+    destruct (check_and_register _ _ _ _ _ _); [|discriminate]. destruct (consume_qsr _ _ _); discriminate.
+  Qed.
+  Theorem update_pillar_no_panic e a s x : update_pillar_validate name_ok e s = VOk x -> update_pillar_receive name_ok e a s <> MPanic.
+  Proof.
+    intros H. unfold update_pillar_receive. rewrite H. destruct (tget _ _); [|discriminate].
+    repeat (match goal with |- context [if ?c then _ else _] => destruct c end; try discriminate).
+  Qed.
+  Theorem delegate_no_panic a s x : delegate_validate name_ok s = VOk x -> delegate_receive name_ok a s <> MPanic.
+  Proof.
+    intros H. unfold delegate_receive. rewrite H. destruct (tget _ _); [|discriminate]. destruct (negb _); discriminate.
+  Qed.
+  Theorem undelegate_no_panic a s x : undelegate_validate s = VOk x -> undelegate_receive a s <> MPanic.
+  Proof. intros H. unfold undelegate_receive. rewrite H. destruct (tget _ _); discriminate. Qed.
+  (* Revoke divides by lock+revoke: no panic as long as that is not zero *)
+  Theorem pillar_revoke_no_panic e a s x : wrapS 64 (c_PillarLock e + c_PillarRevoke e) <> 0 ->
+    pillar_revoke_validate name_ok s = VOk x -> pillar_revoke_receive name_ok e a s <> MPanic.
+  Proof.
+    intros Hw H. unfold pillar_revoke_receive. rewrite H. destruct (tget _ _) as [p|]; [|discriminate].
+    destruct (negb _); [discriminate|]. destruct (negb _); [discriminate|].
+    unfold revoke_window, guard. destruct (wrapS 64 (c_PillarLock e + c_PillarRevoke e) =? 0) eqn:E; [lia|]. cbn [negb]. cbv zeta.
+    destruct (_ <? c_PillarLock e); discriminate.
+  Qed.
+End PillarNoPanic.
+Theorem sentinel_register_no_panic e a s x : sentinel_register_validate e s = VOk x -> sentinel_register_receive e a s <> MPanic.
+Proof.
+  intros H. unfold sentinel_register_receive. rewrite H. destruct (tget _ _); [discriminate|]. destruct (_ <? _); discriminate.
+Qed.
+Theorem sentinel_revoke_no_panic e a s x : wrapS 64 (c_SentinelLock e + c_SentinelRevoke e) <> 0 ->
+  sentinel_revoke_validate s = VOk x -> sentinel_revoke_receive e a s <> MPanic.
+Proof.
+  intros Hw H. unfold sentinel_revoke_receive. rewrite H. destruct (tget _ _) as [p|]; [|discriminate].
+  destruct (negb _); [discriminate|].
+  unfold revoke_window, guard. destruct (wrapS 64 (c_SentinelLock e + c_SentinelRevoke e) =? 0) eqn:E; [lia|]. cbn [negb]. cbv zeta.
+  destruct (_ <? c_SentinelLock e); discriminate.
 Qed.
